@@ -213,7 +213,18 @@ func (aq *Ackqueue) insert(pktid uint16, msg message.Message, onComplete interfa
 		aq.grow()
 	}
 
-	if _, ok := aq.emap[pktid]; !ok {
+	// A message with the same packet ID that has already reached its final
+	// state (it only waits for earlier messages to be handed back) does not
+	// make this one a duplicate: the ID is free again, this is a new message.
+	i, ok := aq.emap[pktid]
+	if ok {
+		switch aq.ring[i].State {
+		case message.PUBACK, message.PUBREL, message.PUBCOMP, message.SUBACK, message.UNSUBACK:
+			ok = false
+		}
+	}
+
+	if !ok {
 		// message length
 		ml := msg.Len()
 
@@ -260,11 +271,14 @@ func (aq *Ackqueue) removeHead() error {
 	}
 
 	it := aq.ring[aq.head]
+	// a newer message may have taken over the packet ID (see insert)
+	if i, ok := aq.emap[it.Pktid]; ok && i == aq.head {
+		delete(aq.emap, it.Pktid)
+	}
 	// set this to empty ackmsg{} to ensure GC will collect the buffer
 	aq.ring[aq.head] = AckMsg{}
 	aq.head = aq.increment(aq.head)
 	aq.count--
-	delete(aq.emap, it.Pktid)
 
 	return nil
 }
